@@ -974,8 +974,10 @@ class Parser:
 
     def _parse_postfix_expression(self) -> Node:
         """Parse postfix expression (member access, calls, postfix ++/--)."""
-        expr = self._parse_new_expression()
+        return self._continue_postfix_expression(self._parse_new_expression())
 
+    def _continue_postfix_expression(self, expr: Node) -> Node:
+        """Apply member accesses, calls and postfix ++/-- to an operand."""
         while True:
             if self._match(TokenType.DOT):
                 # Member access: a.b (keywords allowed as property names)
@@ -1072,8 +1074,10 @@ class Parser:
                 # If there are more parens to close and we're not at the last one,
                 # check if there are operators between this ) and the next
                 if i < paren_depth - 1:
-                    # Continue parsing any operators that might be between parens
+                    # Continue parsing anything that might be between parens:
+                    # a postfix part as in ((a).b) or ((f)(1)), then operators
                     # like in ((-Infinity) | 0)
+                    expr = self._continue_postfix_expression(expr)
                     expr = self._continue_parsing_expression(expr)
 
             return expr
